@@ -3,6 +3,8 @@ package e2lib
 import (
 	"bytes"
 	"fmt"
+	"unicode"
+	"unicode/utf8"
 
 	"verifharness/gen"
 )
@@ -74,6 +76,71 @@ func GenNearMiss(r *gen.Rand, docs []Doc) (Q, []Doc, bool) {
 	var decoy []byte
 	for i, n := 0, r.Range(30, 45); i < n; i++ {
 		decoy = append(decoy, win...)
+		decoy = append(decoy, ' ')
+		if i%8 == 7 {
+			decoy = append(decoy, '\n')
+		}
+	}
+	out := append(append([]Doc(nil), docs...), Doc{Name: fmt.Sprintf("decoy%d.txt", len(docs)), Content: decoy})
+	return Sub{Pat: string(pat), CS: false, Scope: ScopeContent}, out, true
+}
+
+// GenNearMissRune is the multi-byte flavour: one non-ASCII rune of a piece of a document is replaced by its successor
+// code point (same UTF-8 length, not a case variant of it); the decoy document holds the five runes around the
+// replaced one many times. It exercises the rune path of the candidate verification.
+func GenNearMissRune(r *gen.Rand, docs []Doc) (Q, []Doc, bool) {
+	type site struct {
+		doc int
+		rs  []rune
+		pos int
+	}
+	var sites []site
+	for di, d := range docs {
+		if !utf8.Valid(d.Content) {
+			continue
+		}
+		rs := []rune(string(d.Content))
+		for i, c := range rs {
+			if c < 0x80 || i < 3 || i+3 >= len(rs) {
+				continue
+			}
+			m := c + 1
+			if !utf8.ValidRune(m) || utf8.RuneLen(m) != utf8.RuneLen(c) || unicode.ToLower(m) == unicode.ToLower(c) ||
+				unicode.SimpleFold(m) == c || unicode.SimpleFold(c) == m || !ciSafe(string(m)) {
+				continue
+			}
+			ok := true
+			for _, x := range rs[i-3 : i+4] {
+				if x == 0 || !ciSafe(string(x)) {
+					ok = false
+				}
+			}
+			if ok {
+				sites = append(sites, site{di, rs, i})
+			}
+		}
+	}
+	if len(sites) == 0 {
+		return nil, nil, false
+	}
+	s := gen.Pick(r, sites)
+	a, b := 3, 3
+	for a < 5 && s.pos-a-1 >= 0 && r.Bool() {
+		a++
+	}
+	for b < 5 && s.pos+b+1 < len(s.rs) && r.Bool() {
+		b++
+	}
+	pat := append([]rune(nil), s.rs[s.pos-a:s.pos+b+1]...)
+	pat[a]++
+	if !ciSafe(string(pat)) {
+		return nil, nil, false
+	}
+	win := append([]rune(nil), s.rs[s.pos-2:s.pos+3]...)
+	win[2]++
+	var decoy []byte
+	for i, n := 0, r.Range(30, 45); i < n; i++ {
+		decoy = append(decoy, string(win)...)
 		decoy = append(decoy, ' ')
 		if i%8 == 7 {
 			decoy = append(decoy, '\n')
